@@ -147,33 +147,61 @@ Proof.
   repeat constructor; unfold valid_dgram; vm_compute; try reflexivity; discriminate.
 Qed.
 
-(* ---- UDP -> tunnel: who owns batchBuf ---- *)
-(* the state after ANY schedule of the main loop (thread 0) and the ticker goroutine (thread 1) *)
-Definition own_run (late : bool) (ds : list dgram) (sched : list nat) :=
-  run bsh (nat * bpc) (own_step late (N.to_nat UdpBatchBufSize)) (own_init ds) sched.
+(* ---- read failures: no failure kind is ever retried (a sticky one would spin the relay for ever) ---- *)
+Lemma retry_table_is_model :
+  map (fun r => fst r) relay_retry_table = flat_map (fun site => map (fun kind => (site, kind)) [0; 1; 2; 3; 4; 5; 6; 7; 8; 9]) [0; 1; 2; 3] /\
+  forallb (fun r => Bool.eqb (snd r) (relay_retries (fst (fst r)) (snd (fst r)))) relay_retry_table = true.
+Proof. split; vm_compute; reflexivity. Qed.
+Lemma no_error_kind_is_retried : forallb (fun r => negb (snd r)) relay_retry_table = true.
+Proof. vm_compute. reflexivity. Qed.
+
+(* ---- UDP -> tunnel: who owns batchBuf, and when the tunnel is half-closed ---- *)
+(* the state after ANY schedule of the main loop (thread 0) and the ticker goroutine (thread 1);
+   late: the timed flush unlocks before its Write has returned; fac: the final flush runs after the half-close *)
+Definition own_run (late fac : bool) (ds : list dgram) (sched : list nat) :=
+  run bsh (nat * bpc) (own_step late fac (N.to_nat UdpBatchBufSize)) (own_init ds) sched.
 
 Lemma c12_own_stream ds sched :
-  let s := own_run false ds sched in
+  let s := own_run false false ds sched in
   (exists rest_, encode_all (ev_dgrams (map EvD ds)) = b_out (fst s) ++ rest_) /\
   (forall p1, snd s = [(0%nat, BDone); (1%nat, p1)] -> b_out (fst s) = encode_all (ev_dgrams (map EvD ds))).
-Proof. exact (OInv_stream ds _ (own_all_schedules (N.to_nat UdpBatchBufSize) ds sched)). Qed.
+Proof.
+  destruct (OInv_stream ds _ (own_all_schedules (N.to_nat UdpBatchBufSize) ds sched)) as (A & B & _). split; assumption.
+Qed.
+
+Lemma c12_own_flush_before_half_close ds sched :
+  let s := own_run false false ds sched in
+  b_werr (fst s) = false /\
+  (b_cw (fst s) = true -> b_out (fst s) = encode_all (ev_dgrams (map EvD ds))).
+Proof.
+  destruct (OInv_stream ds _ (own_all_schedules (N.to_nat UdpBatchBufSize) ds sched)) as (_ & _ & C & D). split; assumption.
+Qed.
 
 (* the variant that unlocks before the tunnel Write has returned: datagram "AA" is taken by the timed flush, the
    lock is released, "BB" is framed over it and flushed by the main loop, then the stalled Write consumes what its
    slice holds now — the tunnel sees BB BB, "AA" is gone *)
-Definition late_sched : list nat := [0; 0; 0; 1; 1; 0; 0; 0; 0; 0; 0; 1]%nat.
+Definition late_sched : list nat := [0; 0; 0; 1; 1; 0; 0; 0; 0; 0; 0; 1; 0]%nat.
 Lemma c12_own_late_write_refuted :
-  let s := own_run true [[65; 65]; [66; 66]] late_sched in
+  let s := own_run true false [[65; 65]; [66; 66]] late_sched in
   snd s = [(0%nat, BDone); (1%nat, BIdle)] /\
   b_out (fst s) = [0; 2; 66; 66; 0; 2; 66; 66] /\
   b_out (fst s) <> encode_all (ev_dgrams (map EvD [[65; 65]; [66; 66]])).
 Proof. vm_compute. repeat split; try reflexivity. discriminate. Qed.
 
-(* ... the same schedule on the code as it is: the main loop's Lock() simply waits for the Write to return *)
+(* ... the same arrival pattern on the code as it is: the main loop's Lock() simply waits for the Write to return *)
 Lemma c12_own_same_schedule_ok :
-  let s := own_run false [[65; 65]; [66; 66]] (late_sched ++ [1; 0; 0; 0; 0; 0; 0]%nat) in
-  snd s = [(0%nat, BDone); (1%nat, BIdle)] /\ b_out (fst s) = [0; 2; 65; 65; 0; 2; 66; 66].
-Proof. vm_compute. split; reflexivity. Qed.
+  let s := own_run false false [[65; 65]; [66; 66]] ([0; 0; 0; 1; 1; 0; 0; 0; 0; 0; 0; 1; 0; 1; 0; 0; 0; 0; 0; 0; 0]%nat) in
+  snd s = [(0%nat, BDone); (1%nat, BIdle)] /\ b_out (fst s) = [0; 2; 65; 65; 0; 2; 66; 66] /\
+  b_cw (fst s) = true /\ b_werr (fst s) = false.
+Proof. vm_compute. repeat split; reflexivity. Qed.
+
+(* the variant whose final flush is deferred until after close(done) + tryCloseWrite(tunnelConn): on a tunnel that
+   honours its half-close the last batch is refused — one datagram in, nothing out, a refused Write *)
+Lemma c12_own_flush_after_close_refuted :
+  let s := own_run false true [[65; 65]] [0; 0; 0; 0; 0; 0; 0; 0]%nat in
+  snd s = [(0%nat, BDone); (1%nat, BIdle)] /\ b_out (fst s) = [] /\ b_werr (fst s) = true /\
+  b_out (fst s) <> encode_all (ev_dgrams (map EvD [[65; 65]])).
+Proof. vm_compute. repeat split; try reflexivity. discriminate. Qed.
 
 (* ---- Bidirectional, instantiated with constants.CopyBufferSize ---- *)
 (* endpoint A wrapped as cfgA, endpoint B as cfgB; both accept every write *)
